@@ -115,6 +115,20 @@ var meshMethodOps = []meshOp{
 	// stripping an attribute: setting it to no data
 	{"StripFloat2", func(r, o modeling.Mesh, k int) modeling.Mesh { return r.SetFloat2Attribute(modeling.TexCoordAttribute, nil) }},
 	{"SetMaterials", func(r, o modeling.Mesh, k int) modeling.Mesh { return r.SetMaterials(r.Materials()) }},
+	// a derivation with fewer primitives that keeps the source's material list (as the filters and slicers do)
+	{"DropPrimitive", func(r, o modeling.Mesh, k int) modeling.Mesh {
+		per := 3
+		if r.Topology() == modeling.PointTopology {
+			per = 1
+		}
+		n := r.Indices().Len()
+		zz.Assume(n >= per)
+		d := make([]int, n-per)
+		for i := range d {
+			d[i] = r.Indices().At(i)
+		}
+		return r.SetIndices(d).SetMaterials(r.Materials())
+	}},
 }
 
 var meshopsOps = []meshOp{
